@@ -149,13 +149,11 @@ def make_case(rng, P, C, pipe):
 
 
 def case_sig(case):
-    P, C = case['P'], case['C']
-    multi = len({p['file'] for p in P['procs']} | {m['file'] for m in P['mods']}) < len(P['mods']) + sum(1 for p in P['procs'] if not p['mod'])
-    mvars = {v for m in P['mods'] for v in m['vars']}
-    vimp = any(set(im['only']) & mvars for h in P['procs'] + P['mods'] for im in h['imports'])
+    from . import C25
+    C = case['C']
     repl = 'mixed' if any(r['hasReplicate'] for r in C['routines']) else ('all' if C['replicate'] else 'none')
     return (f"pipe={C23.pipe_sig(case['pipe'])}:mvi={int(case['fw']['mvi'])}:sfx={case['fw']['suffix'] or 'none'}:out={int(case['outdir'])}:"
-            f"root={int(case['rootrel'])}:repl={repl}:lib={int(any(r['hasLib'] for r in C['routines']))}:multi={int(multi)}:vimp={int(vimp)}")
+            f"root={int(case['rootrel'])}:repl={repl}:lib={int(any(r['hasLib'] for r in C['routines']))}:{C25.project_sig(case['P'], case['pipe'])}")
 
 
 # validation corpus: the plan expectations of the repository tests, fed to TLC as if observed ---------------------------------
